@@ -701,7 +701,7 @@ func init() {
 		ID: "C01", Title: "Voted relayer proposals need a genuine two-thirds quorum", Level: "exploration",
 		Rule: "one case = one history on a relayer group of n voters + proposer (n from {0..8,11,20,32,63,64,65,100,255}); every block carries up to 13 hostile votes " +
 			"(below threshold, marks beyond the voter list, unsigned marks, missing proposer, unmarked/stranger signers, ragged and all-ones bitmaps, sign-doc wrong in one of chain id/sequence/epoch/method/proposer/payload, malformed signatures, nil vote) " +
-			"attached to payloads that are otherwise valid for each of the five voted message kinds, followed by one genuine-quorum control; oracle from the generator's ground truth (who signed, which marks) plus store-hash comparison with a twin node that executed the block without the hostile votes. " +
+			"attached to payloads that are otherwise valid for each of the five voted message kinds, one transaction with two voted messages (a genuine quorum first, a forged vote for the following sequence second: it must fail as a whole), followed by one genuine-quorum control (every third one a transaction with two genuinely voted messages); oracle from the generator's ground truth (who signed, which marks) plus store-hash comparison with a twin node that executed the block without the hostile votes. " +
 			"Non-trivial = every judged vote; distinct = (group size, kind, class, |marks|, |signers|, bitmap length, verdict).",
 		Assume: []string{"blst signing in the harness is correct", "the harness resolves the voter order from Query/Relayer"},
 		Cases: func(tier string) int {
